@@ -1,6 +1,7 @@
 package props
 
 import (
+	"sync/atomic"
 	"encoding/json"
 	"math/rand"
 	"net"
@@ -168,7 +169,14 @@ func c07hGen(rng *rand.Rand, tier string) []core.Spec {
 	return out
 }
 
+// after a few hangs the remaining cases are not run (each would burn a core for the whole watchdog
+// period): they report the hang at once
+var hsHangs int32
+
 func hsExecGuarded(s core.Spec) (e core.Exec) {
+	if atomic.LoadInt32(&hsHangs) >= 3 {
+		return core.Exec{Tape: "70 0 1 0 1", Tags: []string{"HUNG", "skipped-after-repeated-hangs"}, Nontrivial: true}
+	}
 	defer func() {
 		if r := recover(); r != nil {
 			e = core.Exec{Tape: "70 1 0 0 1", Tags: []string{"PANIC"}, Nontrivial: true}
@@ -186,7 +194,8 @@ func hsExecGuarded(s core.Spec) (e core.Exec) {
 	select {
 	case x := <-done:
 		return x
-	case <-time.After(15 * time.Second):
+	case <-time.After(5 * time.Second):
+		atomic.AddInt32(&hsHangs, 1)
 		return core.Exec{Tape: "70 0 1 0 1", Tags: []string{"HUNG"}, Nontrivial: true}
 	}
 }
@@ -217,7 +226,7 @@ func init() {
 }
 
 func c07hClauses() map[int]string {
-	m := map[int]string{50: "panic", 51: "no return within 15 s"}
+	m := map[int]string{50: "panic", 51: "no return within 5 s"}
 	for k, v := range hsClauses {
 		m[k] = v
 	}
